@@ -488,6 +488,7 @@ func init() {
 				cfg := gen.Cfg(false, 0, 0, false, false, true)
 				res = append(res, gen.APICase(front, n, false, cons, false, nil, cfg, []gen.M{gen.Op("solve")}))
 			}
+			res = append(res, scanCandidates(env, "pb", env.Pick(40000, 600000), false, scanPB)...)
 			return res
 		},
 		Cover: func(t core.Case, cov map[string]int) bool {
@@ -585,6 +586,7 @@ func init() {
 				}
 				res = append(res, c)
 			}
+			res = append(res, scanCandidates(env, "opt", env.Pick(50000, 800000), false, scanOpt)...)
 			return res
 		},
 		Cover: func(t core.Case, cov map[string]int) bool {
@@ -660,6 +662,7 @@ func init() {
 				}
 				res = append(res, gen.APICase(front, n, strict, cons, false, nil, cfg, ev))
 			}
+			res = append(res, scanCandidates(env, "count", env.Pick(25000, 400000), false, scanCount)...)
 			return res
 		},
 		Cover: func(t core.Case, cov map[string]int) bool {
@@ -759,6 +762,7 @@ func init() {
 				ev = append(ev, gen.Op("solve"))
 				res = append(res, gen.APICase(front, n, strict, cons, false, nil, cfg, ev))
 			}
+			res = append(res, scanCandidates(env, "hist", env.Pick(40000, 600000), false, scanHist)...)
 			return res
 		},
 		Cover: func(t core.Case, cov map[string]int) bool {
@@ -835,6 +839,7 @@ func init() {
 				}
 				res = append(res, gen.APICase("slicenb", nv, true, gen.ClauseCtors(clauses), false, nil, cfg, ev))
 			}
+			res = append(res, scanCandidates(env, "assume", env.Pick(40000, 600000), false, scanAssume)...)
 			return res
 		},
 		Cover: func(t core.Case, cov map[string]int) bool {
